@@ -65,6 +65,10 @@ def row_kinds(fmt):
         kinds.append(("nonnum", c))
     if fmt == "euroc":
         kinds.append(("short", None))
+    # defective rows that contain the comment character somewhere
+    kinds.append(("inline-hash", None))
+    kinds.append(("hash-field", 1))
+    kinds.append(("hash-suffix", n - 1))
     return kinds
 
 
@@ -91,6 +95,16 @@ def render_row(fmt, kind, rowid):
         return d.join(f) + d, "defect"
     if name == "doubled":
         return d.join(f[:2]) + d + d + d.join(f[2:]), "defect"
+    if name == "inline-hash":
+        return d.join(f) + d + "#" + d + "lost", "defect"
+    if name == "hash-field":
+        g = list(f)
+        g[arg] = "#N/A"
+        return d.join(g), "defect"
+    if name == "hash-suffix":
+        g = list(f)
+        g[arg] = g[arg] + "#"
+        return d.join(g), "defect"
     if name == "nonnum":
         g = list(f)
         g[arg] = "abc"
@@ -382,6 +396,12 @@ def shard_transforms(arg):
             json.dump(d, f, indent=1)
         attempt(p, True, geom.sim_matrix(R, t, s or 1.0),
                 "json scale=%s" % s)
+        for bad_scale in (0, 0.0, -0.0, -1.0, -2):
+            d3 = dict(d)
+            d3["scale"] = bad_scale
+            with open(p, "w") as f:
+                json.dump(d3, f)
+            attempt(p, False, None, "json scale=%r" % bad_scale)
         for missing in ("qw", "x"):
             d2 = {k: v for k, v in d.items() if k != missing}
             with open(p, "w") as f:
